@@ -16,6 +16,9 @@ func clientCfg(t *rapid.T) sim.CConfig {
 	}
 	c.HookCalls = rapid.IntRange(0, 3).Draw(t, "hookcalls") == 0
 	c.HookClose = rapid.IntRange(0, 5).Draw(t, "hookclose") == 0
+	if rapid.IntRange(0, 3).Draw(t, "logyield") == 0 {
+		c.LogYield = pick(t, "logyields", []int{1, 5, 40})
+	}
 	if rapid.IntRange(0, 5).Draw(t, "closefails") == 0 {
 		// the channel's Close does close it, and reports an error (a last flush failed)
 		c.Faults = append(c.Faults, sim.Fault{Op: "close", At: 1, Kind: "err"})
